@@ -157,7 +157,9 @@ class DropLog(logging.Handler):
             pass
 
 
-POLICIES = {"idem": (2, 240), "nonidem": (0, 240), "conn": (0, 8)}
+POLICIES = {"idem": (2, 240), "nonidem": (0, 240), "conn": (0, 8),
+            # policies of the caller's own making (RetryPolicy is a public type): expired on arrival, half a second, five minutes with five retries
+            "zero": (2, 0), "brief": (1, 4), "long": (5, 2400)}
 
 
 class Env:
@@ -325,12 +327,14 @@ class Env:
         # the API layers pass the package's module-level policy objects: use the very same objects (a policy that has drifted
         # from its documented value - e.g. mutated by an earlier run in this process - then shows up in the monitors, which
         # judge against the documented values recorded with the acceptance)
-        pol = {"idem": S.RETRY_IDEMPOTENT, "nonidem": S.RETRY_NON_IDEMPOTENT, "conn": S.RETRY_CONNECTED}[policy]
+        pol = {"idem": S.RETRY_IDEMPOTENT, "nonidem": S.RETRY_NON_IDEMPOTENT, "conn": S.RETRY_CONNECTED}.get(policy)
+        if pol is None:
+            pol = S.RetryPolicy(max_retries=retries, max_lifetime=life * TICK)
         if Env.policy_baseline is None:
             Env.policy_baseline = {k: (p.max_retries, p.max_lifetime) for k, p in
                                    (("idem", S.RETRY_IDEMPOTENT), ("nonidem", S.RETRY_NON_IDEMPOTENT), ("conn", S.RETRY_CONNECTED))}
             for k, (r, l) in Env.policy_baseline.items():
-                if (r, round(l / TICK)) != POLICIES[k]:
+                if (r, round(l / TICK)) != POLICIES[k]:   # (the three package policies only)
                     raise RuntimeError("harness policy table %r differs from the package constants %r" % (POLICIES, Env.policy_baseline))
         try:
             msg = self.make_message(sid, kind)
